@@ -226,9 +226,11 @@ PROPS = {
     "C06": {"streams": [sim_stream("occ", ["C06"], {"wmax": 4})]},
     "C07": {"streams": [sim_stream("full", ["C07"], {"nmax": 7})]},
     "C08": {"streams": [sim_stream("c08", ["C08"], {"bad": 0.3})]},
-    "C09": {"streams": [S("loader", "canon", ["C09"], 3000, 100000, {"valid": 0.9, "defect": 0.1, "dead": 0.2})]},
+    "C09": {"streams": [S("loader", "canon", ["C09"], 3000, 100000, {"valid": 0.9, "defect": 0.1, "dead": 0.2}),
+                        S("flow", "verdict", [], 1500, 40000)]},
     "C10": {"streams": [S("loader", "canon", ["C10"], 3000, 100000, {"valid": 0.9, "defect": 0.05, "dead": 0.45})]},
-    "C11": {"streams": [S("loader", "acc", ["C11"], 4000, 120000, {"valid": 0.6, "defect": 0.5, "dead": 0.1})]},
+    "C11": {"streams": [S("loader", "acc", ["C11"], 4000, 120000, {"valid": 0.6, "defect": 0.5, "dead": 0.1}),
+                        S("flow", "verdict", [], 1500, 40000)]},
     "C12": {"streams": [S("mkproc", "canon", ["C12"], 0, 0, explicit=mkproc_scope, exhaustive=True),
                         S("mkproc", "canon", ["C12"], 2000, 60000, {"nmax": 8}),
                         S("loader", "canon", ["C12"], 2000, 60000, {"valid": 0.9, "defect": 0.05, "dead": 0.2})]},
